@@ -7,6 +7,7 @@ CONSTANTS
   NFiles = 1
   EditKinds = {}
   Linking = FALSE
+  StaleOps = FALSE
 INIT Init
 NEXT Next
 VIEW View
